@@ -330,7 +330,7 @@ def _snapshot(mol):
 @condition("C01.modifications",
            anchors=["polyply.src.apply_modifications:apply_mod", "polyply.src.apply_modifications:_patch_protein_termini",
                     "polyply.src.apply_modifications:ApplyModifications.run_molecule"],
-           rejects=(), selector_only=True, must_cover=["default termini", "explicit", "several", "offset", "relabelled", "non-protein terminus untouched"],
+           rejects=(), selector_only=True, must_cover=["default termini", "explicit", "several", "offset", "relabelled", "non-protein terminus untouched", "residues not stored in residue-id order"],
            assumes=["residue ids >= 1"],
            outside=["modifications that add atoms", "-mods spec parsing (vermouth parse_residue_spec is used as is)"],
            bounds={"quick": dict(seqs=[["ALA", "GLY", "LYS"], ["LYS", "ALA"], ["GLY"], ["AS", "ALA", "GLY"], ["GLY", "AS"], ["LYS", "GLY", "ALA"], ["GLYX", "ALA"]], starts=[1, 4]),
@@ -354,7 +354,11 @@ def modifications(sx, B):
     if keyf != "resid-1":
         sx.cover("relabelled")
     resids = [start + i for i in range(n)]
-    meta = residue_graph(n, [(i, i + 1) for i in range(n - 1)], seq, resids, keys=keys, ff=ff)
+    stored = sx.sel("residues_stored", ["in residue-id order", "in reverse order"])
+    order = list(range(n)) if stored == "in residue-id order" else list(range(n))[::-1]
+    if stored != "in residue-id order" and n > 1:
+        sx.cover("residues not stored in residue-id order")
+    meta = residue_graph(n, [(i, i + 1) for i in range(n - 1)], seq, resids, keys=keys, order=order, ff=ff)
     MapToMolecule(ff).run_molecule(meta)
     with patched(al, tqdm=_Tqdm):
         ApplyLinks().run_molecule(meta)
